@@ -46,6 +46,7 @@ def run(ctx):
                 core.leanchecker(ctx, ["ButlerModel.Props.C09"])
     with repo.Scratch("verif-c09-") as tmp:
         arthist.histories(ctx, built, tmp, mode="C09")
+        arthist.histories(ctx, False, tmp, mode="C09", trust=True)
         hostile_names(ctx, built, tmp)
 
 
